@@ -18,8 +18,9 @@ RULE = ("latitudes: the full 0.0005-degree grid over [-90,90] (blocks of 500 poi
         "values printed in DO-260B), either neighbour accepted within 1e-9 deg of a transition; evenness and monotonicity on "
         "every block; both py_common.cprNL and the emulated working-tree c_common.cprNL. non-trivial = latitude within "
         "0.02 deg of a transition or |lat| >= 86.5 or |lat| < 1e-6"
-        ' Also: whole-degree latitudes passed as Python ints, 140 000 / 1.3 million distinct latitudes in a row in one process (leg volume), the first cprNL calls of a freshly imported package made by four threads at once (leg first_use), latitudes as numpy.float16 / float32 / float64 scalars, Decimal and Fraction around every transition (leg single_precision).')
-HOSTILE_UNDERFLOW = True   # the hostile process state of this check also traps floating-point underflow (latitudes next to 0 included)
+        ' Also: whole-degree latitudes passed as Python ints, 140 000 / 1.3 million distinct latitudes in a row in one process (leg volume), the first cprNL calls of a freshly imported package made by four threads at once (leg first_use), latitudes as numpy.float16 / float32 / float64 scalars, Decimal and Fraction around every transition (leg single_precision).'
+        ' Exactly +-87.0 must give 2.')
+HOSTILE_UNDERFLOW = True   # the hostile process state of this check also traps floating-point underflow (latitudes next to 0 included
 ASSUMPTIONS = ["the Cython twin is observed through /verif/pyxemu (no Cython compiler on the image); calibrated against the pre-built binary in C15",
                "reference transition latitudes computed in float64 (error ~1e-14 deg) and checked against the 8-decimal DO-260B table"]
 
